@@ -7,6 +7,7 @@ V = os.path.dirname(os.path.dirname(os.path.abspath(__file__)))
 EXTRA = {  # further checks worth running for a seed besides its own property
     "C01-1": ["C17", "C06"], "C05-2": ["C04"], "C06-2": ["C01", "C17"], "C04-2": ["C10"], "C10-2": ["C04"], "C18-2": ["C04", "C10"],
     "C14-2": ["C03"], "C08-2": ["C11"], "C11-2": ["C08"], "C17-2": ["C08"], "C08-1": ["C17"], "C13-6": ["C02"], "C20-6": ["C14"],
+    "C07-16": ["C09"], "C15-15": ["C14"], "C06-16": ["C20"], "C06-15": ["C13"], "C04-15": ["C13"],
     "C18-7": ["C07"], "C17-8": ["C08"], "C02-8": ["C04"], "C14-7": ["C20"], "C20-7": ["C14"],
 }
 known = json.load(open(os.path.join(V, "known_findings.json")))
